@@ -600,6 +600,11 @@ func (g *Gen) applyContract(fr *Frame, st *State, site ssa.Instruction, fc *Func
 		}
 	}
 	// havoc
+	if fc.Escapes {
+		if ci, ok := site.(ssa.CallInstruction); ok {
+			g.escapeArgs(fr, st, ci.Common())
+		}
+	}
 	for i, m := range fc.Modifies {
 		if m.Op == "id" && m.Name == "everything" {
 			g.havocAll(st)
